@@ -186,8 +186,14 @@ class ClModel:
                     vals[r] = T.op("xor", T.width(x), x, T.K(T.width(x), (1 << T.width(x)) - 1))
                 elif short in ("uload8", "uload16", "uload32", "sload8", "sload16", "sload32"):
                     w = int(short[5:])
-                    addr = T.op("add", 64, val(a[2]), T.sext(64, val(a[3])))
-                    wide = ty(a[0])
+                    # uload8 / uload16 / sload8 / sload16 take the result type first; uload32 / sload32 always give I64
+                    if len(a) == 4:
+                        wide, pa, oa = ty(a[0]), a[2], a[3]
+                    elif len(a) == 3:
+                        wide, pa, oa = 64, a[1], a[2]
+                    else:
+                        raise Unknown("%s with %d arguments" % (short, len(a)))
+                    addr = T.op("add", 64, val(pa), T.sext(64, val(oa)))
                     ld = ("load", w, addr)
                     vals[r] = T.zext(wide, ld) if short[0] == "u" else T.sext(wide, ld)
                     res["order"].append(("load", w, addr))
